@@ -406,4 +406,62 @@ theorem scan_none {cs : List (Cand V)} (h : (scan m cs).1 = none) :
         obtain ⟨c', hc', hr⟩ := ih h pre c post hcs hacc
         exact ⟨c', by simp [hc'], hr⟩
 
+theorem flushSeg_nonempty (acc : List Char) : ∀ t ∈ flushSeg acc, ∀ s, t = .seg s → s ≠ "" := by
+  intro t ht s hs
+  unfold flushSeg at ht
+  by_cases h : acc.isEmpty
+  · simp [h] at ht
+  · simp only [h, Bool.false_eq_true, if_false, List.mem_singleton] at ht
+    subst ht
+    cases hs
+    intro he
+    have : (String.ofList acc.reverse).toList = [] := by rw [he]; rfl
+    simp at this
+    simp [this] at h
+
+theorem tokenizeAux_nonempty (cs acc : List Char) : ∀ t ∈ tokenizeAux cs acc, ∀ s, t = .seg s → s ≠ "" := by
+  induction cs generalizing acc with
+  | nil => exact flushSeg_nonempty acc
+  | cons c cs ih =>
+    intro t ht s hs
+    unfold tokenizeAux at ht
+    by_cases hc : c = '/'
+    · simp only [hc, if_true, List.mem_append, List.mem_cons] at ht
+      rcases ht with h | h | h
+      · exact flushSeg_nonempty acc t h s hs
+      · subst h; cases hs
+      · exact ih [] t h s hs
+    · simp only [hc, if_false] at ht
+      exact ih (c :: acc) t ht s hs
+
+/-- request tokens never contain an empty segment -/
+theorem tokenize_seg_nonempty (p : String) : ∀ t ∈ tokenize p, ∀ s, t = .seg s → s ≠ "" :=
+  tokenizeAux_nonempty _ _
+
+
+theorem str_ne_empty_iff (s : String) : s ≠ "" ↔ s.toList ≠ [] := by
+  constructor
+  · intro h he; apply h; apply String.toList_injective; simp [he]
+  · intro h he; apply h; rw [he]; rfl
+
+theorem foldl_append_ne_empty (l : List String) (acc : String) (h : acc ≠ "") :
+    l.foldl (fun r s => r ++ s) acc ≠ "" := by
+  induction l generalizing acc with
+  | nil => exact h
+  | cons x xs ih =>
+    apply ih
+    rw [str_ne_empty_iff] at h ⊢
+    simp [String.toList_append, h]
+
+theorem render_ne_empty (tok : Tok) (rest : List Tok) (h : ∀ s, tok = .seg s → s ≠ "") : render (tok :: rest) ≠ "" := by
+  unfold render String.join
+  simp only [List.map_cons, List.foldl_cons]
+  apply foldl_append_ne_empty
+  cases tok with
+  | sep => simp [tokStr]
+  | seg sg =>
+    have := h sg rfl
+    rw [str_ne_empty_iff] at this ⊢
+    simpa [tokStr, String.toList_append] using this
+
 end Heimdall
